@@ -39,7 +39,8 @@ PROPS = {
                        'container by code reachable from Vm::run is bounded by a constant or retained by design.'
                        ' Round 5: G5 every Root-yielding function adds exactly one to the root count, G6 the parked return slot is emptied when taken.'
                        ' Rounds 9-10: G7 wrapper impls forward every overridden method of the collector\'s trait; G8 no fiber-to-fiber edge besides the caller link.'
-                       ' Round 11: two seeds (an object kept alive by a list entry never removed on one path) are documented as undecided.',
+                       ' Round 11: two seeds (an object kept alive by a list entry never removed on one path) are documented as undecided.'
+                       ' Round 12: G9 a class holds no collection of classes / instances; G4\'s length-test discharge is tied to the container itself and sees Roots inside workspace structs (decides both round-11 seeds).',
         'assumptions': COMMON_ASSUME,
         'not_decided': ['the quantitative bound (2x + one allocation): arithmetic over run-time byte counts',
                         'that unreachable objects are actually unreferenced by roots at run time'],
@@ -59,7 +60,8 @@ PROPS = {
                        ' Round 6: V2 (no debug-only assertion on a data-dependent step count) and V5 (checked arithmetic on program-chosen integers) also run here.'
                        ' Round 7: P10 iterators over mutable collections compare their cursor with the current len() before every element read; V6 (difference of two lengths) and X2b also run here. Round 8: P4 (no heap cell borrowed again while a guard of the same payload type is alive), P11 (fixed-capacity Stacks other than the value stack are pushed to behind a capacity test), P1 with arity-relative slot depths, L4 (every raise records its own site: a stale site in another function\'s code made runtime_error panic), H1, B5 and S10 also run here.'
                        ' Rounds 9-10: U3 over every str slice outside the scanner, M5, R0, R2, H13 (no Hasher::write diverges) also run here; P4 discharges closures over validated keys and methods of the map object that only wrap keyed operations.'
-                       ' Round 11: P12 no unwrap of f64::partial_cmp; P13 narrowing casts outside the compiler are bounded; F12 a re-initialised fiber resets every per-run field; S4 also runs here; P6 keys fold closures into their function.',
+                       ' Round 11: P12 no unwrap of f64::partial_cmp; P13 narrowing casts outside the compiler are bounded; F12 a re-initialised fiber resets every per-run field; S4 also runs here; P6 keys fold closures into their function.'
+                       ' Round 12: P14 no unwrap / expect in the built-ins and their helpers; F13, H5 also run here; P13 discharges char casts behind an is_ascii / len_utf8() == 1 test.',
         'assumptions': COMMON_ASSUME,
         'not_decided': ['that each remaining unwrap/expect/index in the VM is unreachable (they depend on the compiler/VM contract, C04)',
                         'integer-overflow asserts', 'host natives beyond P1/P2'],
@@ -82,7 +84,8 @@ PROPS = {
                        ' Round 6: B4 (handler offsets are not truncated) also runs here.'
                        ' Round 7: X15 entering a try block always pushes a handler entry; X2b handler removal on break / continue is counted from the loop header; X11 also rejects a return_impl that clears a single-slot in-flight flag. Round 8: X16 (only unwind_stack reads a handler\'s entry address), X18 (unwind_stack sets the in-flight state from the handler it delivers to, on every path), P11 also runs here.'
                        ' Rounds 9-10: X3 natives in scope, X3c re-armed fibers; S1 also runs here; X16 accepts closures of unwind_stack.'
-                       ' Round 11: X20 the parked-return slot is filled only by JumpFinally; P13 also runs here.',
+                       ' Round 11: X20 the parked-return slot is filled only by JumpFinally; P13 also runs here.'
+                       ' Round 12: X21 every emission of Return follows the JumpFinally chain; F6 also runs here.',
         'assumptions': COMMON_ASSUME,
         'not_decided': ['which handler receives which exception at run time', '"finally runs exactly once" on every exit (dynamic)',
                         'exceptions thrown inside catch/finally blocks'],
@@ -120,7 +123,8 @@ PROPS = {
                        ' Rounds 3-5: S5/S6/S1 (upvalues across yields and at fiber end), X3 handlers dropped on the same fiber, F2 into the innermost frame, F5 finished is tested first.'
                        ' Round 6: F6 a switch overwrites no VM-wide state besides the fiber pointers and the frame registers, F7 call_native removes arguments only for natives that do not manage the stack. Round 8: F8 (what a fiber switch carries depends on the argument count only), F9 (is_new is decided from the frame list), L4 / L10 (the site of an exception in flight is recorded per fiber and per frame) also run here.'
                        ' Rounds 9-10: F10 caller link written / cleared on every completed switch; F11 the root / active fiber is never handed out as a value; R1 (with the open-upvalue finding) and S9 also run here; F4 / F5 refined (taking an empty link, link predicates).'
-                       ' Round 11: F12 re-initialised fibers; F13 the fiber built-ins change nothing before the last error exit; X20, R2 also run here.',
+                       ' Round 11: F12 re-initialised fibers; F13 the fiber built-ins change nothing before the last error exit; X20, R2 also run here.'
+                       ' Round 12: N1, N8 also run here (a fiber-nesting counter must not outlive its run).',
         'assumptions': COMMON_ASSUME,
         'not_decided': ['interleavings of several fibers', 'per-fiber isolation of locals/handlers at run time',
                         'that error cases leave every fiber untouched'],
@@ -182,7 +186,8 @@ PROPS = {
                        ' Round 6: L9 the class named in an uncaught-error report is the instance\'s own class; B5 (the frame limit is tested before the push) also runs here.'
                        ' Round 7: L3 extended to every advance() loop of the scanner (found defect f5767c9: a newline inside a \\x escape was not counted). Round 8: L4 restated (every raise records its own site; a rethrow keeps it; unwind_stack re-points it when it discards frames), L10 (the site is kept, used and forgotten together with the depth of its frame), L3 look-ahead analysis (no advance() consumes a character nothing has looked at).'
                        ' Rounds 9-10: E12, B4n also run here; L12 add_chunk returns its own allocation; L13 CORE_SOURCE == core.yl; L14 the command line interprets the content it read (or a length- and line-preserving edit of it); L15 add_message keeps every line.'
-                       ' Round 11: L16 host built-ins reach no unwrap / expect of an I/O or decoding result.',
+                       ' Round 11: L16 host built-ins reach no unwrap / expect of an I/O or decoding result.'
+                       ' Round 12: L17 each trace entry follows the line look-up of its own frame; L18 the command line prints the report whole.',
         'assumptions': COMMON_ASSUME,
         'not_decided': ['that reported lines are the right ones for every call shape', 'message texts'],
         'level_text': 'Decides L1-L3 for the two error tables, the line table writers and the scanner newline sites.',
@@ -285,7 +290,8 @@ PROPS = {
                        ' Rounds 3-5: M4c compile() reaches no registry writer, M5 key = path as written / removal only in reset / built-ins from the class store.'
                        ' Round 6: M6 every core class the interpreter reads back from main\'s globals is exported to each new module under the same name (found defect fd417cd). Round 8: M7 (an import at the call-depth limit fails before the module is registered), M3 covers every function used as a module loader, CC1 and N8 (a counter raised by one instruction and lowered by another is restored by unwinding) also run here.'
                        ' Rounds 9-10: CC2, R2 also run here.'
-                       ' Round 11: M1\'s flag clauses fail closed (cannot decide) on a tree without the per-module flag.',
+                       ' Round 11: M1\'s flag clauses fail closed (cannot decide) on a tree without the per-module flag.'
+                       ' Round 12: M1 no error exit before the registry look-up.',
         'assumptions': COMMON_ASSUME,
         'not_decided': ['that every import yields the *same* object at run time (follows from the single registry writer, not executed)',
                         'that the built-ins behave the same in every module (only the set of exported names and the classes behind them is decided, by M6)'],
@@ -329,7 +335,8 @@ PROPS = {
                        ' Round 6: U2 (slice bounds) also runs here.'
                        ' Round 7: E8 PartialEq for Value compares numbers with one IEEE `==` and nothing else. Round 8: E9 (value equality writes no state: a visited flag on one operand makes == asymmetric); I1 (every string an operator produces comes out of the intern table) also runs here.'
                        ' Rounds 9-10: E10 operators examine the kind of every operand they constrain; E11 arithmetic on f64 only; E12 no interior mutability in shared immutable objects; E13 every kind has a same-kind arm in PartialEq (fix fc343c2); D4, X2b, S12 also run here.'
-                       ' Round 11: E2\'s range clause reads operands by pop or peek, follows a validation helper and requires the END operand to be judged first; B4, B15 also run here; E9 ignores stores into memory the comparison allocated.',
+                       ' Round 11: E2\'s range clause reads operands by pop or peek, follows a validation helper and requires the END operand to be judged first; B4, B15 also run here; E9 ignores stores into memory the comparison allocated.'
+                       ' Round 12: E15 a compound assignment loads its target before its right-hand side is compiled; P13, Q3 also run here.',
         'assumptions': COMMON_ASSUME,
         'not_decided': ['precedence / associativity table contents', 'value results and error kinds per operand kind',
                         'statement-level control flow at run time', 'evaluate-once and left-to-right order of sub-expressions'],
